@@ -29,6 +29,13 @@ Check C17_dup_ident_is_error : forall u i,
   In u all_units -> In i (u_ids u) -> dup_listed i = true -> resolve_unit i = UErr EAmbigExact.
 Print Assumptions C17_dup_ident_is_error.
 
+(* the excluded class contains only the identifiers recorded in the known finding: a NEW identifier
+   listed for two units makes this theorem (and the implementation-level search) fail *)
+Theorem C17_dup_idents_are_known : forall i, In i dup_idents -> In i known_dup_idents.
+Proof. exact dup_idents_are_known. Qed.
+Check C17_dup_idents_are_known : forall i, In i dup_idents -> In i known_dup_idents.
+Print Assumptions C17_dup_idents_are_known.
+
 (* ---- case-insensitively when unambiguous: any spelling s (unbounded) of a listed identifier i
    whose lower-casing is listed for one unit only resolves to that unit *)
 Theorem C17_case_insensitive_when_unambiguous : forall u i s,
@@ -172,19 +179,26 @@ Check C17_temperature_functions_identified : temp_probes_ok = true.
 Print Assumptions C17_temperature_functions_identified.
 
 (* ---- prefix ratios (finite: every prefixed/base pair of identifiers found in the table) -------
-   metric: over the decimals as typed;  binary (kibi..yobi): over the exact values of the f64s *)
+   whenever an identifier reads [dim]prefix+rest and [dim]rest is an identifier of another unit, the
+   two units are linear units of one category (so they convert) and their coefficients are in the
+   ratio of the prefix: metric over the decimals as typed; binary (kibi..yobi) over the exact values
+   of the f64s *)
 Theorem C17_prefix_ratio_metric : forall u b k,
-  In (u, b, k) (prefix_hits metric_prefixes) -> (coef_dec u == coef_dec b * Qpow10 k)%Q.
+  In (u, b, k) (prefix_hits metric_prefixes) ->
+  same_linear_category u b = true /\ (coef_dec u == coef_dec b * Qpow10 k)%Q.
 Proof. exact prefix_ratio_metric. Qed.
 Check C17_prefix_ratio_metric : forall u b k,
-  In (u, b, k) (prefix_hits metric_prefixes) -> (coef_dec u == coef_dec b * Qpow10 k)%Q.
+  In (u, b, k) (prefix_hits metric_prefixes) ->
+  same_linear_category u b = true /\ (coef_dec u == coef_dec b * Qpow10 k)%Q.
 Print Assumptions C17_prefix_ratio_metric.
 
 Theorem C17_prefix_ratio_binary : forall u b k,
-  In (u, b, k) (prefix_hits binary_prefixes) -> (coef_exact u == coef_exact b * Qpow2 k)%Q.
+  In (u, b, k) (prefix_hits binary_prefixes) ->
+  same_linear_category u b = true /\ (coef_exact u == coef_exact b * Qpow2 k)%Q.
 Proof. exact prefix_ratio_binary. Qed.
 Check C17_prefix_ratio_binary : forall u b k,
-  In (u, b, k) (prefix_hits binary_prefixes) -> (coef_exact u == coef_exact b * Qpow2 k)%Q.
+  In (u, b, k) (prefix_hits binary_prefixes) ->
+  same_linear_category u b = true /\ (coef_exact u == coef_exact b * Qpow2 k)%Q.
 Print Assumptions C17_prefix_ratio_binary.
 Example C17_prefix_hits_nonempty : prefix_hits metric_prefixes <> [] /\ prefix_hits binary_prefixes <> [].
 Proof. split; intros H; apply (f_equal (@List.length _)) in H; vm_compute in H; discriminate. Qed.
